@@ -470,6 +470,11 @@ Definition run_open_peak (l : list N) : list N :=
 (* destination matrix (C02 C07 C08 C09 C14): [source kind; destination state; option] -> [outcome code] *)
 (* ------------------------------------------------------------------ *)
 From XcpModel Require Import DestMatrix.
+Definition run_parent_missing (l : list N) : list N :=
+  match l with
+  | s :: _ => [outcome_code (parent_missing_outcome (s_of s))]
+  | _ => [9]
+  end.
 Definition run_dest_matrix (l : list N) : list N :=
   match l with
   | s :: d :: o :: _ => [outcome_code (dest_outcome (s_of s) (d_of d) (o_of o))]
